@@ -11,7 +11,7 @@ def run(prop, tier, seed):
     rep = vlib.Report(prop, tier, seed, "model_checking")
     wd = vlib.workdir(prop)
     cov = {}
-    schedlib.model_check(wd, ["StepAccounting", "DoneTruthful", "ErrorTruthful"], tier, cov)
+    schedlib.model_check(wd, ["StepAccounting", "DoneTruthful", "ErrorTruthful", "ErrorReported"], tier, cov)
     # programs: the scheduler scenarios, generated task-free programs, host-call signatures
     scn = schedlib.scenario_cases(wd)
     gen, _ = vlib.gen_simulate(prop, os.path.join(PROPS, "C02.tla"), 40 if tier == "quick" else 400, seed)
